@@ -1,11 +1,12 @@
 import MuduoVerif.Proofs.ConnStream
+import MuduoVerif.Proofs.ConnTraceIndep
 /-!
 What a transient fault at the socket boundary does to a connection (C11): handler by handler,
 for **every** state (no reachability hypothesis), and iteration by iteration for a connection
 whose loop is otherwise idle.
 -/
 namespace MuduoVerif.Conn.Fault
-open MuduoVerif.Conn MuduoVerif.Gen.Conn
+open MuduoVerif.Conn MuduoVerif.Gen.Conn MuduoVerif.Conn.TraceIndep
 
 /-! ### handlers -/
 
@@ -261,5 +262,18 @@ theorem faultIter_evs_quiet (c : Conn) (f : FaultIter) :
   | write x => simp [FaultIter.evs] at he; exact Or.inl ⟨_, _, he⟩
   | read x => simp [FaultIter.evs] at he; exact Or.inr ⟨_, he⟩
   | eintr => simp [FaultIter.evs] at he
+
+/-- **fault-oblivious**: on an idle loop, whatever history `rest` follows `k` fault iterations, the state reached
+is the state `rest` alone reaches: every field but the trace is equal, and the trace is the fault-free one with the
+records of the failed system calls inserted at the point where the faults happened -/
+theorem resume_after_faults (c : Conn) (hq : Quiet c) (fs : List FaultIter) (ha : ∀ f ∈ fs, f.applicable c)
+    (rest : List Input) :
+    ∃ s, (run c rest).trace = c.trace ++ s ∧
+      run c (fs.flatMap FaultIter.inputs ++ rest) =
+        setTrace (run c rest) (c.trace ++ fs.flatMap (FaultIter.evs c) ++ s) := by
+  obtain ⟨s, hs, hall⟩ := run_setTrace c rest
+  refine ⟨s, hs, ?_⟩
+  rw [run_app, fault_cost c hq fs ha]
+  exact hall (c.trace ++ fs.flatMap (FaultIter.evs c))
 
 end MuduoVerif.Conn.Fault
